@@ -2,6 +2,7 @@ import Rare.Base.Proto
 import Rare.Model.C15
 import Rare.Model.C15Trunc
 import Rare.Model.C15Wiring
+import Rare.Model.C15Api
 import Rare.Model.C15Tail
 import Rare.Model.C15Trace
 /-!
@@ -468,7 +469,31 @@ def cliAnswer (spec : String) : String :=
       let k := match w.kind with | .notify => "notify" | .poll => "poll"
       s!"ok follow kind={k} reopen={bit w.reopen} tail={bit w.tail}"
 
+/-! ### `api <notify|poll> <reopen> <content> <calls>`: Read / Drain / Close / append from one goroutine -/
+
+def parseCall (st : String) : Option Rare.C15.Api.Call :=
+  match st.toList with
+  | 'R' :: r => (String.ofList r).toNat?.map .read
+  | 'A' :: r => (Hex.dec (String.ofList r)).map .append
+  | ['D'] => some .drain
+  | ['C'] => some .close
+  | _ => none
+
+def showRes : Rare.C15.Api.Res → String
+  | .bytes b => "r" ++ Hex.enc b
+  | .eof => "eof"
+  | .block => "block"
+  | .ok => "ok"
+
+def apiAnswer (content calls : String) : String :=
+  match Hex.dec content, (calls.splitOn ",").mapM parseCall with
+  | some c, some cs =>
+    let (s, rs) := Rare.C15.Api.run (Rare.C15.Api.init c) cs
+    s!"ok {",".intercalate (rs.map showRes)} delivered={s.delivered.length}"
+  | _, _ => "bad-args"
+
 def handle : List String → String
+  | ["api", _, _, content, calls] => apiAnswer content calls
   | ["new", r, p, e] => newAnswer (r == "1") (p == "1") (e == "1")
   | ["cli", spec] => cliAnswer spec
   | ["tailb", blob] => tailb blob
